@@ -350,7 +350,7 @@ def c11_jobs(tier):
         wk("nucleo-chk", "random", "chk", 8, 1000000, 25 if q else 900, props="C11"),
         wk("nucleo-directed", "directed", "chk", 4, 1000000, 25 if q else 600, props="C11"),
         wk("nucleo-asan", "random", "asan", 4, 1000000, 20 if q else 600, props="C11", sanitizer=True, env=ASAN_ENV),
-    ] + layout_jobs(tier, asan=True)
+    ] + layout_jobs(tier, asan=True, exhaust=True)
 
 
 PROPS["C11"] = {
